@@ -293,6 +293,8 @@ pub fn clash_cases(first: usize) -> Vec<(String, Vec<(ItemPath, Module)>, usize)
         ("raw-and-plain-base-fn", "pub type A { pub w: u32, }\nimpl A { #[address(0x10)] pub fn bar(&self); }\npub type B { pub v: u32, }\nimpl B { #[address(0x20)] pub fn r#bar(&self); }\npub type D { #[base] pub a: A, #[base] pub b: B, }"),
         ("raw-field-named-vftable", "pub type V { vftable { pub fn f(&self); }, pub r#vftable: u64, }"),
         ("type-named-like-module-segment", "pub type kclash { pub x: u64, }\npub type U { pub k: kclash, }"),
+        ("type-named-std", "pub type std { pub x: u32, }\npub type Other { #[base] pub s: std, }\nimpl Other { #[address(0x1000)] pub fn f(&self) -> u32; }"),
+        ("type-named-core", "#[singleton(0x7000)] pub type core { pub x: u32, }\npub type Other { vftable { pub fn v(&self); }, pub s: core, }"),
     ];
     let mut out = vec![];
     for (k, (name, text)) in texts.iter().enumerate() {
@@ -302,6 +304,44 @@ pub fn clash_cases(first: usize) -> Vec<(String, Vec<(ItemPath, Module)>, usize)
             let id = format!("k{}_", first + out.len());
             let _ = k;
             out.push((id.clone(), vec![(ItemPath::from(format!("{id}clash_{}", name.replace('-', "_")).as_str()), m)], ptrw));
+        }
+    }
+    out
+}
+
+/// Clashes and visibility across a module tree: a root module and one child module, handed over
+/// in either order. `ROOT` in the text stands for the root module's path.
+pub fn tree_clash_cases(first: usize) -> Vec<(String, Vec<(ItemPath, Module)>, usize)> {
+    let cases: Vec<(&str, &str, &str, &str)> = vec![
+        ("type-and-child-module-share-a-name", "pub type b { pub x: u32, }", "b", "pub type Inner { pub y: u32, }"),
+        ("enum-and-child-module-share-a-name", "pub enum b: u32 { A, }", "b", "pub type Inner { pub y: u32, }"),
+        ("generated-vftable-struct-and-child-module-share-a-name", "pub type Foo { vftable { pub fn f(&self); }, }", "FooVftable", "pub type Inner { pub y: u32, }"),
+        ("private-base-field-across-modules", "pub type A { pub x: u32, }\npub type B { #[base] a: A, }", "~sib", "use ROOT::B;\npub type C { #[base] pub b: B, }"),
+        ("private-base-field-two-levels-across-modules", "pub type A { pub x: u32, }\nimpl A { #[address(0x1000)] pub fn fa(&self) -> u32; }\npub type B { #[base] a: A, }\npub type B2 { #[base] pub b: B, }", "~sib", "use ROOT::B2;\npub type C { #[base] pub b2: B2, }"),
+        ("private-vfunc-of-first-base-across-modules", "pub type Base { vftable { fn secret(&self); pub fn open(&self); }, }", "~sib", "use ROOT::Base;\npub type Derived { #[base] pub base: Base, }"),
+        ("private-vfunc-of-later-base-across-modules", "pub type Base { vftable { fn secret(&self); pub fn open(&self); }, }", "~sib", "use ROOT::Base;\npub type First { pub x: u64, }\npub type Derived { #[base] pub first: First, #[base] pub base: Base, }"),
+        ("private-impl-fn-of-base-across-modules", "pub type Base { pub x: u32, }\nimpl Base { #[address(0x1000)] fn hidden(&self); #[address(0x1040)] pub fn shown(&self); }", "~sib", "use ROOT::Base;\npub type Derived { #[base] pub base: Base, }"),
+        ("private-field-type-across-modules", "pub type A { pub x: u32, }\npub type B { a: A, pub n: u32, }", "~sib", "use ROOT::B;\npub type C { pub b: B, pub p: *const B, }"),
+    ];
+    let mut out = vec![];
+    for (name, root_text, child, child_text) in cases {
+        for ptrw in [8usize, 4] {
+            for child_first in [false, true] {
+                let id = format!("k{}_", first + out.len());
+                let root = format!("{id}clash_{}", name.replace('-', "_"));
+                let parse = |t: &str| {
+                    pyxis::parser::parse_str(&t.replace("\\n", "\n").replace("ROOT", &root)).unwrap_or_else(|e| panic!("tree clash case {name} does not parse: {e:?}"))
+                };
+                let mut mods = vec![
+                    (ItemPath::from(root.as_str()), parse(root_text)),
+                    // `~name`: a sibling of the root module (a child may see its ancestors' private items)
+                    (ItemPath::from(match child.strip_prefix('~') { Some(sib) => format!("{root}_{sib}"), None => format!("{root}::{child}") }.as_str()), parse(child_text)),
+                ];
+                if child_first {
+                    mods.reverse();
+                }
+                out.push((id, mods, ptrw));
+            }
         }
     }
     out
@@ -436,6 +476,9 @@ pub fn run(ctx: &mut Ctx) {
     let cl = clash_cases(inputs.len());
     ctx.count("name_clash_cases", cl.len() as u64);
     inputs.extend(cl);
+    let tc = tree_clash_cases(inputs.len());
+    ctx.count("tree_clash_cases", tc.len() as u64);
+    inputs.extend(tc);
 
     let built: Vec<BuildOutcome> = inputs.par_iter().map(|(id, m, p)| l2::build_mods(id, m, *p)).collect();
     let mut accepted: Vec<Built> = vec![];
